@@ -24,10 +24,15 @@ RULE = ('scenario = generated model (units, src_indices, auto-IVC/IVC, shared pr
 ASSUMPTIONS = [
     'a recorded input is judged only if it is consistent with its recorded source output (cases taken in the middle of '
     'a run can hold an input that is stale w.r.t. the recorded value of its source; no load can satisfy both)',
-    'an input whose connection converts units is compared to 16 ulp (one conversion there, one back); everything else exactly',
+    'an input whose connection converts units, or whose source is also written through an input of other units, is '
+    'compared to 16 ulp (one conversion there, one back); everything else exactly',
     'run_model reproduction is judged only when every independent variable of the model is in the case and the case '
     'was recorded at the end of a model run (driver, problem or root-system case); exact for acyclic models, '
-    '1e-10 relative for converged cycles (solver tolerances 1e-13)',
+    '1e-10 relative for converged cycles (solver tolerances 1e-13; converged = residuals in the record-time snapshot '
+    '<= 1e-11 relative to the largest output)',
+    'recorded inputs that share a source are judged only if they (and the recorded source) agree on every source '
+    'element: load_case writes connected inputs through to their source, so a stale input of a component that was '
+    'not executed in the recorded run cannot be restored together with the others',
     'solver cases are not used (mid-iteration states)',
 ]
 MIN_JUDGED = {'quick': 60, 'thorough': 1200}
@@ -93,6 +98,66 @@ def _mixed_units(src, V):
         return False
     us = set(m['units'] for m in V.values() if m['io'] == 'input' and m.get('src_abs') == src)
     return len(us) > 1
+
+
+def _input_groups(rin, rout, V):
+    """Recorded continuous inputs grouped by source: {src: (consistent, converts)}.
+
+    load_case writes every recorded input through its connection into the source (System.set_val on a connected
+    input sets the source) and then the recorded outputs; all these writes can only be satisfied together when they
+    agree on every element of the source.  `consistent`: every element of the source gets one value (compared in SI
+    units, 8 ulp) from all recorded inputs that read it and from the recorded source itself; `converts`: some writer
+    has units different from another one (a value may come back through two conversions).
+    A case recorded while a component had not been executed (skipped as irrelevant by the optimizer, or recorded
+    before the first run) holds such a stale input; no load can restore it together with its source."""
+    groups = {}
+    for a in rin:
+        m = V.get(a)
+        if m is None or m['discrete'] or not m.get('src_abs'):
+            continue
+        groups.setdefault(m['src_abs'], []).append(a)
+    out = {}
+    for src, ins in groups.items():
+        implied = {}
+        units = set()
+        for a in ins:
+            m = V[a]
+            rv = np.asarray(rin[a], dtype=float).ravel()
+            idx = m.get('src_indices') or range(rv.size)
+            units.add(m['units'])
+            for k, j in enumerate(idx):
+                if k < rv.size:
+                    implied.setdefault(int(j), []).append(rv[k] * UNIT_FACTOR[m['units']])
+        # units of the source: declared for real outputs; for an auto_ivc known only when all its targets agree
+        tu = set(x['units'] for x in V.values() if x['io'] == 'input' and x.get('src_abs') == src)
+        su = V[src]['units'] if (src in V and not src.startswith('_auto_ivc.')) else (list(tu)[0] if len(tu) == 1 else '?')
+        if src in rout and su != '?':
+            units.add(su)
+            for j, x in enumerate(np.asarray(rout[src], dtype=float).ravel()):
+                implied.setdefault(j, []).append(x * UNIT_FACTOR[su])
+        ok = True
+        for vals in implied.values():
+            v = np.array(vals)
+            if not np.all(np.isfinite(v)) or (v.max() - v.min()) > 8 * 2.3e-16 * max(1e-300, np.abs(v).max()):
+                ok = False
+        out[src] = (ok, len(units) > 1 or su == '?')
+    return out
+
+
+def _settled(ev):
+    """was the model at a fixed point when the case was recorded?  max |residual| <= 1e-11 * max(1, max |output|)
+    in the snapshot taken at record time (solver tolerances are 1e-13; the re-run is compared to 1e-10)."""
+    snap = ev.get('snap') or {}
+    res = [np.asarray(v, dtype=float).ravel() for v in snap.get('residual', {}).values()]
+    outs = [np.asarray(v, dtype=float).ravel() for v in snap.get('output', {}).values()
+            if isinstance(v, np.ndarray) and v.dtype.kind == 'f']
+    if not res:
+        return False
+    r = np.concatenate(res)
+    o = np.concatenate(outs) if outs else np.zeros(1)
+    if not (np.all(np.isfinite(r)) and np.all(np.isfinite(o))):
+        return False
+    return float(np.abs(r).max()) <= 1e-11 * max(1.0, float(np.abs(o).max()))
 
 
 def _eq(a, b, rel=0.0):
@@ -184,6 +249,7 @@ def judge_case(spec, cr, ev, name, phase, V, cyc, acc, pick):
     acc.count('obs:case_kind:' + ev['kind'])
     rin = {a: c.inputs[a] for a in c.inputs.absolute_names()} if c.inputs is not None else {}
     rout = {a: c.outputs[a] for a in c.outputs.absolute_names()} if c.outputs is not None else {}
+    okeys = set(c.outputs.keys()) if c.outputs is not None else set()
     dictcase = 'dictcase' if any(V.get(a, {}).get('discrete') for a in list(rin) + list(rout)) else 'arraycase'
     before = {}
     for a in list(rin) + list(rout):
@@ -230,10 +296,15 @@ def judge_case(spec, cr, ev, name, phase, V, cyc, acc, pick):
             key = 'load_case:output:%s:%s:%s' % (dictcase, how, tag)
             if _mixed_units(a, V):
                 key = 'load_case:shared-input-mixed-units:output:' + how
+            elif not a.startswith('_auto_ivc.') and m['prom'][''] not in okeys:
+                # Case.outputs.keys() are documented to be the promoted names; here the file holds the name relative
+                # to the sub-system whose recorder was started last, which load_case cannot resolve in the model
+                key = 'load_case:output:keyed-by-subsystem-relative-name:not-restored'
             viol(key,
                  'after load_case(%s) [%s, %s] get_val(%r)=%s, recorded %s' % (name, ev['kind'], phase, a,
                                                                                _show(gv), _show(rv)))
     # ---- inputs
+    igroups = _input_groups(rin, rout, V)
     for a, rv in rin.items():
         m = V.get(a)
         if m is None:
@@ -241,18 +312,14 @@ def judge_case(spec, cr, ev, name, phase, V, cyc, acc, pick):
         tags = _tags_in(m, V)
         src = m.get('src_abs')
         rel = 0.0
-        if not m['discrete'] and src in rout and not src.startswith('_auto_ivc.'):
-            # consistency of the recorded input with the recorded source (own arithmetic)
-            sv = np.asarray(rout[src], dtype=float).ravel()
-            if m.get('src_indices'):
-                sv = sv[np.array(m['src_indices'])]
-            su = V[src]['units'] if src in V else m['units']
-            f = UNIT_FACTOR[su] / UNIT_FACTOR[m['units']]
-            # the recorded source value wins (outputs are loaded after inputs): the recorded input can only be
-            # restored if it is what its recorded source implies (bitwise; 4 ulp when units are converted)
-            if sv.size != np.asarray(rv).size or not _eq(sv * f, rv, rel=0.0 if f == 1.0 else 4 * 2.3e-16):
+        if not m['discrete'] and src in igroups:
+            consistent, converts = igroups[src]
+            if not consistent:
+                # stale w.r.t. its recorded source or w.r.t. another recorded input of the same source
                 acc.count('obs:stale_inputs_not_judged')
                 continue
+            if converts:
+                rel = 16 * 2.3e-16      # the value may have gone to the source and back through another writer's units
         if 'units' in tags:
             rel = 16 * 2.3e-16
             acc.count('obs:inputs_with_unit_conversion')
@@ -293,6 +360,10 @@ def judge_case(spec, cr, ev, name, phase, V, cyc, acc, pick):
         acc.count('obs:rerun_skipped:indeps-not-in-case')
     elif bad[0]:
         acc.count('obs:rerun_skipped:load-already-wrong')
+    elif cyc and not _settled(ev):
+        # the recorded run left the cycle unconverged (diverging loop gain / iteration limit): the recorded outputs
+        # are not a fixed point, a re-run need not reproduce them
+        acc.count('obs:rerun_skipped:recorded-cycle-not-converged')
     else:
         try:
             prob.run_model()
